@@ -12,6 +12,22 @@ CLAIMED = {
         technique="Coq theorem (induction over the interval list) + extracted-model/implementation correspondence",
         design="5 C03"),
 }
+CLAIMED["C01"] = dict(
+    text="Proof: for ALL start/end lists of equal length the model of the constructor (independent merge sort + repaired _jitfix_iset) returns a canonical set "
+         "(C01_canonical); with start<=end pairwise it covers no point outside the union and every point of the union except within 1 us before an input start "
+         "(C01_cover_sound/complete, via invariance of the depth function under independent sorting); canonical sets are fixed points; the original kernel is "
+         "refuted by two witnesses. Correspondence is complete over all multisets of <=3 pairs on a 6-value tick set incl. inverted/zero-length/sub-us pairs.",
+    note="Trusted: Coq kernel; model Model/Iset.v tied to nap.IntervalSet in every input form by differential execution; np.sort = merge sort on ticks; float trim idealised (float_ambiguous counted).",
+    technique="Coq theorems (loop-invariant induction, permutation/counting argument) + extracted-model/implementation correspondence",
+    design="5 C01")
+CLAIMED["C02"] = dict(
+    text="Proof: point-membership theorems for the models of jitintersect/jitdiff/jitunion/jitunion_isets for all canonical operands (exact, with the touch-point / "
+         "endpoint-of-B exceptions named), lifted through the constructor to the property's own quantifier (every instant farther than 1 us from every endpoint); "
+         "endpoints, raw well-formedness, commutativity, idempotence, absorbing elements and the two duration identities are theorems as well. "
+         "Correspondence: all pairs of canonical sets with <=3 intervals on an 8-point lattice (kernels incl. parent indices, and public wrappers).",
+    note="Trusted: Coq kernel; models Model/Iset.v tied to the four kernels and the public union/intersect/set_diff/TsGroup support by differential execution.",
+    technique="Coq theorems (nested structural / fuel induction with invariants) + extracted-model/implementation correspondence",
+    design="5 C02")
 REASON_TODO = "check not built yet in this round (planned: DESIGN.md section 5)"
 m = {
     "version": 1,
